@@ -139,6 +139,14 @@ class PassiveState(State):
         self._postselections: Dict[int, int] = {}
         """Maps postselected modes to postselected photon counts."""
 
+        self._projection_probability: float = 1.0
+        """
+        The probability of the particle number measurement outcomes this state has been
+        projected onto. A post-measurement state is represented by postselections (like
+        the states resulting from `PostSelectPhotons`), but - unlike those - it is
+        normalized, i.e., its probabilities are divided by this value.
+        """
+
         self._particle_overlap: Optional[Union[complex, np.ndarray]] = None
         """The particle overlap, if the state is partially distinguishable."""
 
@@ -290,6 +298,14 @@ class PassiveState(State):
         self._coefficients = [c / np.sqrt(norm) for c in self._coefficients]
 
     def get_particle_detection_probability(
+        self, occupation_number: np.ndarray
+    ) -> float:
+        return (
+            self._get_unnormalized_particle_detection_probability(occupation_number)
+            / self._projection_probability
+        )
+
+    def _get_unnormalized_particle_detection_probability(
         self, occupation_number: np.ndarray
     ) -> float:
         if self._config.validate and len(occupation_number) != self.d:
@@ -446,7 +462,7 @@ class PassiveState(State):
                 state_vector[index_range] + coefficient * partial_state_vector,
             )
 
-        return state_vector
+        return state_vector / fallback_np.sqrt(self._projection_probability)
 
     @property
     def state_vector_map(self) -> Dict[Tuple[int, ...], complex]:
@@ -520,12 +536,15 @@ class PassiveState(State):
                 1.0 if self._particle_overlap is None else self._particle_overlap
             )
 
-            return get_lossy_partially_distinguishable_detection_probabilities(
-                occupation_numbers=occupation_numbers,
-                transmission_matrix=self.interferometer,
-                input_occupation=self._occupation_numbers[0],
-                particle_overlap=particle_overlap,
-                connector=self._connector,
+            return (
+                get_lossy_partially_distinguishable_detection_probabilities(
+                    occupation_numbers=occupation_numbers,
+                    transmission_matrix=self.interferometer,
+                    input_occupation=self._occupation_numbers[0],
+                    particle_overlap=particle_overlap,
+                    connector=self._connector,
+                )
+                / self._projection_probability
             )
 
         np = self._connector.np
@@ -619,13 +638,18 @@ class PassiveState(State):
                 "Marginal probabilities cannot be calculated for postselected modes."
             )
 
-        return get_marginal_fock_probabilities(
+        probabilities = get_marginal_fock_probabilities(
             self._occupation_numbers[0],
             self.interferometer,
             postselected_modes,
             postselected_photons,
             marginal_modes=tuple(modes),
         )
+
+        return {
+            outcome: probability / self._projection_probability
+            for outcome, probability in probabilities.items()
+        }
 
     def __eq__(self, other: object) -> bool:
         if not isinstance(other, PassiveState):
